@@ -124,6 +124,10 @@ def loops_iterating(body, bb):
     return out
 
 
+def F_(ctx):
+    return ctx.F
+
+
 def rule_fanout(ctx, R):
     """foreign_track_distances: one command per (candidate x executor); expected count = executors.len()*tracks.len();
        find_usable / lookup / Drop: one command and one receive per executor"""
@@ -131,14 +135,15 @@ def rule_fanout(ctx, R):
     b = ctx.anchor(R, STORE + '::foreign_track_distances')
     if b is not None:
         eb = ExprBuilder(b)
-        sends = [c for c in b.find_calls(SEND) if sent_variant(b, c) == 'Distances']
+        from lib import effective_sites, iteration_context
+        sends = [(site, c, o) for site, c, o in effective_sites(F_(ctx), b, SEND) if sent_variant(o, c) == 'Distances']
         ctx.check(len(sends) == 1, R, b, 'distance-command-send-sites', '1 send site',
                   '%d send sites for Commands::Distances' % len(sends))
-        for c in sends:
-            its = loops_iterating(b, c.bb)
-            texts = [repr(e) for _, e in its]
-            over_exec = any(e.has_place(root=('param', 1), field='executors') for _, e in its)
-            over_tracks = any(e.has_place(root=('param', 2)) for _, e in its)
+        for site, c, o in sends:
+            its = iteration_context(F_(ctx), b, o, c.bb)
+            texts = [repr(e) for e in its]
+            over_exec = any(e.has_place(root=('param', 1), field='executors') for e in its)
+            over_tracks = any(e.has_place(root=('param', 2)) for e in its)
             n += 1
             ctx.check(over_exec and over_tracks, R, b, 'send-per-candidate-and-executor',
                       'send nested in loops over %s' % texts,
@@ -171,18 +176,20 @@ def rule_fanout(ctx, R):
         b = ctx.anchor(R, STORE + '::' + name)
         if b is None:
             continue
-        for kind, calls in (('send', [c for c in b.find_calls(SEND) if sent_variant(b, c) == cmd]),
-                            ('recv', b.find_calls(RECV))):
+        from lib import effective_sites, iteration_context
+        for kind, calls in (('send', [(s_, c, o) for s_, c, o in effective_sites(ctx.F, b, SEND)
+                                      if sent_variant(o, c) == cmd]),
+                            ('recv', effective_sites(ctx.F, b, RECV))):
             n += 1
             ok = len(calls) == 1
             detail = ''
             if ok:
-                its = loops_iterating(b, calls[0].bb)
-                ok = len(its) == 1 and its[0][1].has_place(root=('param', 1), field='executors')
-                detail = 'in a loop over %s' % [repr(e) for _, e in its]
+                its = iteration_context(ctx.F, b, calls[0][2], calls[0][1].bb)
+                ok = len(its) == 1 and its[0].has_place(root=('param', 1), field='executors')
+                detail = 'iterating %s' % [repr(e) for e in its]
             ctx.check(ok, R, b, '%s:%s-per-executor' % (name, kind), detail,
                       '%s does not %s exactly once per executor (%s)' % (name, kind, detail or '%d sites' % len(
-                          calls)), calls[0].ln if calls else '')
+                          calls)), calls[0][1].ln if calls else '')
     return n
 
 
@@ -207,7 +214,9 @@ def rule_shard_index(ctx, R):
         ok = False
         for c in gets:
             recv = eb.operand(c.args[0])
-            if recv.has_place(root=('param', 1), field='stores') and is_mod_shards(eb.operand(c.args[1])):
+            from lib import expand_calls
+            idx = expand_calls(F, eb.operand(c.args[1]), only=lambda p_: p_.startswith('track::store::'))
+            if recv.has_place(root=('param', 1), field='stores') and is_mod_shards(idx):
                 ok = True
         n += 1
         ctx.check(ok, R, gs, 'get_store:index', 'stores[id % num_shards]',
@@ -277,6 +286,8 @@ def rule_shard_index(ctx, R):
     if newb is not None:
         ok = False
         detail = ''
+        from lib import all_closures as _ac
+        _ac(F, newb)          # registers where closures (also those of inlined helpers) are constructed
         for cb in reachable_bodies(F, newb, depth=1):
             for b in F.get(cb):
                 for c in b.find_calls(WORKER):
@@ -353,25 +364,26 @@ def rule_consumers(ctx, R):
         ctx.check(len(recvs) == 1 and not other, R, ga, 'get_all:blocking-recv', 'one blocking recv per expected chunk',
                   'get_all does not use one blocking recv per expected chunk (recv sites: %d, non-blocking/timeout '
                   'receives: %s): late chunks are dropped' % (len(recvs), [c.name for c in other]))
+        from lib import counting_loops
         for c in recvs:
-            its = loops_iterating(ga, c.bb)
-            rng = [e for _, e in its if e.has_call('count') or any(
-                x.kind == 'agg' and x.name.endswith('Range::Range') for x in e.walk())]
+            cl = counting_loops(ga, c.bb)
             n += 1
-            ok = len(its) == 1 and bool(rng)
-            ctx.check(ok, R, ga, 'get_all:loop-over-count', 'recv inside `for _ in 0..self.count()`',
-                      'the receive is not executed once per 0..count (%s)' % [repr(e) for _, e in its], c.ln)
-            for h, blks in ga.loops().items():
-                if c.bb in blks:
-                    ex = loop_exit_edges(ga, h)
-                    n += 1
-                    # the only exit is the exhaustion of the range iterator
-                    okx = len(ex) == 1
-                    if okx:
-                        t = ga.blocks[ex[0][0]]['t']
-                        okx = t['k'] == 'switch' and ExprBuilder(ga).operand(t['discr']).kind == 'discr'
-                    ctx.check(okx, R, ga, 'get_all:single-loop-exit', 'loop leaves only when the range is exhausted',
-                              'the receive loop can be left early through %s: remaining chunks are never consumed' % ex)
+            # the bound is the expected number of chunks: a usize obtained from self (the trait is private: the name
+            # of that method is not part of the rule)
+            okb = [x for x in cl if x[2].kind == 'call' and x[2].args and x[2].args[0].strip().kind == 'place' and
+                   x[2].args[0].strip().root == ('param', 1)]
+            ctx.check(len(okb) == 1, R, ga, 'get_all:loop-over-count', 'recv inside a loop that runs count() times',
+                      'the receive is not executed exactly once per expected chunk (counting loops around it: %s): '
+                      'chunks are lost or the caller blocks forever' % [(k, repr(e)) for _, k, e in cl], c.ln)
+            n += 1
+            ctx.check(bool(cl), R, ga, 'get_all:single-loop-exit', 'loop leaves only when the count is exhausted',
+                      'the receive loop can be left early: remaining chunks are never consumed')
+            if okb:
+                from lib import count_per_iteration
+                r = count_per_iteration(ga, okb[0][0], [c.bb])
+                n += 1
+                ctx.check(r == (1, 1), R, ga, 'get_all:one-recv-per-iteration', str(r),
+                          'the loop over the expected chunks receives %s times per iteration' % (r,))
     for it in ('TrackDistanceOkIterator', 'TrackDistanceErrIterator'):
         path = '<track::store::track_distance::%s as std::iter::Iterator>::next' % it
         b = ctx.anchor(R, path)
@@ -490,22 +502,33 @@ def rule_track_distances(ctx, R):
                       desc, 'Track::distances can produce an outcome (%s) for a pair of tracks whose attributes were '
                       'not found compatible: incompatible tracks take part in the query (as results or as error '
                       'reports)' % desc)
-    for cb in all_closures(F, b):
+    from lib import subst_upvars, expand_calls
+    for cb in [b] + all_closures(F, b):
         for mc in cb.find_calls('track::ObservationMetric::metric'):
-            # the closure is constructed only on the compatible side
-            for bb, si, dp, ops, lhs in closure_aggregates_(b):
-                if dp != cb.npath:
-                    continue
-                conds = path_conditions(b, bb)
+            ebc = ExprBuilder(cb)
+            if cb is b:
+                # loop form: the metric call itself sits on the compatible side
+                conds = path_conditions(b, mc.bb)
                 ok = any(k.kind == 'bool' and k.truth is True and k.expr.kind == 'call' and k.expr.name.endswith(
                     'TrackAttributes::compatible') for k in conds)
                 n += 1
-                ctx.check(ok, R, b, 'metric-only-when-compatible', 'closure built on the compatible()==true side',
+                ctx.check(ok, R, b, 'metric-only-when-compatible', 'metric call on the compatible()==true side',
                           'the metric is reachable although compatible() is false or was not consulted on that path',
                           mc.ln)
+            else:
+                # the closure is constructed only on the compatible side
+                for bb, si, dp, ops, lhs in closure_aggregates_(b):
+                    if dp != cb.npath:
+                        continue
+                    conds = path_conditions(b, bb)
+                    ok = any(k.kind == 'bool' and k.truth is True and k.expr.kind == 'call' and k.expr.name.endswith(
+                        'TrackAttributes::compatible') for k in conds)
+                    n += 1
+                    ctx.check(ok, R, b, 'metric-only-when-compatible', 'closure built on the compatible()==true side',
+                              'the metric is reachable although compatible() is false or was not consulted on that '
+                              'path', mc.ln)
             # MetricQuery wiring
-            ebc = ExprBuilder(cb)
-            q = ebc.arg(mc, 1)
+            q = subst_upvars(F, cb, ebc.arg(mc, 1))
             mq = [x for x in q.walk() if x.kind == 'agg' and x.name.endswith('MetricQuery::MetricQuery')]
             n += 1
             okq = False
@@ -517,37 +540,52 @@ def rule_track_distances(ctx, R):
                     e = e.strip()
                     if e.kind == 'call' and e.name.endswith('get_attributes'):
                         e = e.args[0].strip()
-                    if e.kind == 'place' and e.root[0] == 'upvar':
-                        pb, pe = upvar_expr_(F, cb, e.root[1])
-                        return pe.strip() if pe is not None else e
+                    if e.kind == 'place' and e.fields[-1:] == ('attributes',):
+                        from lib import E as _E
+                        e = _E('place', root=e.root, fields=e.fields[:-1])
                     return e
                 ca, ta_ = up(m['candidate_attrs']), up(m['track_attrs'])
                 co, to = m['candidate_observation'].strip(), m['track_observation'].strip()
-                okq = ca.kind == 'place' and ca.root == ('param', 1) and ta_.kind == 'place' and ta_.root == (
-                    'param', 2) and co.kind == 'place' and to.kind == 'place' and co.fields[-1:] == ('0',) and \
-                    to.fields[-1:] == ('1',)
+                # the observations are the two components of one (left, right) pair: closure parameter `.0` / `.1`,
+                # or - in loop form - elements of self.observations / other.observations
+                pair_ok = (co.kind == 'place' and to.kind == 'place' and co.fields[-1:] == ('0',) and
+                           to.fields[-1:] == ('1',)) or \
+                    (m['candidate_observation'].has_place(root=('param', 1), field='observations') and
+                     m['track_observation'].has_place(root=('param', 2), field='observations'))
+                okq = ca.kind == 'place' and ca.root == ('param', 1) and not ca.fields and ta_.kind == 'place' and \
+                    ta_.root == ('param', 2) and not ta_.fields and pair_ok
                 detail = 'candidate=(%r,%r) track=(%r,%r)' % (ca, co, ta_, to)
             ctx.check(okq, R, cb, 'metric-query-wiring', detail,
                       'the metric query does not pair (self attributes, left observation) as candidate with (other '
                       'attributes, right observation) as track: %s' % detail, mc.ln)
-            # result wiring
-            for d in cb.defs().get(0, []):
-                if d[0] == 'assign' and d[3]['rv']['k'] == 'agg' and d[3]['rv'].get('v') == 'Some':
-                    e = ebc._rvalue(d[3]['rv'], (), 0, (d[1], d[2]))
-                    ok_ = [x for x in e.walk() if x.kind == 'agg' and x.name.endswith('ObservationMetricOk::ObservationMetricOk')]
-                    n += 1
-                    okr = False
-                    if ok_:
-                        m = dict(zip(ok_[0].extra['fields'], ok_[0].args))
-                        am, fd = m['attribute_metric'], m['feature_distance']
-                        okr = m['from'].has_field('track_id') and m['to'].has_field('track_id') and \
-                            repr(m['from']) != repr(m['to']) and am.has_call('metric') and fd.has_call('metric') and \
-                            (am.proj[-1:] == ('0',) or am.fields[-1:] == ('0',)) and \
-                            (fd.proj[-1:] == ('1',) or fd.fields[-1:] == ('1',))
-                    ctx.check(okr, R, cb, 'result-wiring', repr(ok_[0])[:200] if ok_ else '',
-                              'the distance record is not built as {from: self.track_id, to: other.track_id, '
-                              'attribute_metric: metric().0, feature_distance: metric().1}: %s' % (
-                                  repr(ok_[0])[:300] if ok_ else repr(e)[:300]), d[3]['ln'])
+            # result wiring: every distance record built from this metric call
+            recs = []
+            for i_ in sorted(cb.live_blocks()):
+                for si_, s_ in enumerate(cb.blocks[i_]['st']):
+                    if s_['k'] == 'assign' and s_['rv']['k'] == 'agg' and 'ObservationMetricOk' in str(
+                            s_['rv'].get('adt', '')):
+                        recs.append((ebc._rvalue(s_['rv'], (), 0, (i_, si_)), s_['ln']))
+                c_ = cb.call_at(i_)
+                if c_ is not None and 'ObservationMetricOk' in c_.callee and c_.name == 'new':
+                    recs.append((expand_calls(F, ebc._call(c_, (), 0), only=lambda p_: 'ObservationMetricOk' in p_),
+                                 c_.ln))
+            for e, ln_ in recs:
+                e = subst_upvars(F, cb, e)
+                ok_ = [x for x in e.walk() if x.kind == 'agg' and x.name.endswith('ObservationMetricOk::ObservationMetricOk')]
+                n += 1
+                okr = False
+                if ok_:
+                    m = dict(zip(ok_[0].extra['fields'], ok_[0].args))
+                    am, fd = m['attribute_metric'], m['feature_distance']
+                    okr = m['from'].has_field('track_id') and m['to'].has_field('track_id') and \
+                        m['from'].has_place(root=('param', 1)) and m['to'].has_place(root=('param', 2)) and \
+                        am.has_call('metric') and fd.has_call('metric') and \
+                        (am.proj[-1:] == ('0',) or am.fields[-1:] == ('0',) or '.0' in repr(am)[-4:]) and \
+                        (fd.proj[-1:] == ('1',) or fd.fields[-1:] == ('1',) or '.1' in repr(fd)[-4:])
+                ctx.check(okr, R, cb, 'result-wiring', repr(ok_[0])[:200] if ok_ else '',
+                          'the distance record is not built as {from: self.track_id, to: other.track_id, '
+                          'attribute_metric: metric().0, feature_distance: metric().1}: %s' % (
+                              repr(ok_[0])[:300] if ok_ else repr(e)[:300]), ln_)
     # (b) full product, no short-circuit
     for bb, kind, desc in exits(b):
         if kind != 'ok':
@@ -571,9 +609,15 @@ def rule_track_distances(ctx, R):
         if not prod:
             ctx.note(R, 'Track::distances: pair enumeration not recognised as cartesian_product; product clause not armed')
         # both observation lists are looked up under the requested class
-        gets = [x for x in e.walk() if x.kind == 'call' and x.name.endswith('HashMap::get')]
-        okc = bool(gets) and all(g.args[1].strip().kind == 'place' and g.args[1].strip().root == ('param', 3) for g in
-                                 gets)
+        # (wherever the lookups sit: in the returned chain or ahead of an explicit pair loop)
+        gets = []
+        for c_ in b.find_calls('std::collections::HashMap::get'):
+            r_ = eb.arg(c_, 0)
+            if r_.has_field('observations'):
+                gets.append((r_, eb.arg(c_, 1)))
+        sides = {p_.root for r_, _ in gets for p_ in r_.places() if p_.root[0] == 'param'}
+        okc = sides >= {('param', 1), ('param', 2)} and all(
+            k_.strip().kind == 'place' and k_.strip().root == ('param', 3) for _, k_ in gets)
         n += 1
         ctx.check(okc, R, b, 'both-sides-use-requested-class', '', 'observations are not looked up under the '
                   'requested feature class on both sides')
